@@ -154,37 +154,45 @@ class C20(Check):
         nclients = k.choice([1, 2, 2, 3])
         n = k.choice([1, 2, 3, 5, 8, 13, 21, 34, 55, 89, 144, 233, 300])
         naddr = k.choice([1, 2, 4, 6, 6, 9, 10, 10])
+        pool = ADDRS[:naddr]
+        nrec = 6
+        if k.random() < 0.01:
+            # scale runs: hundreds of records (what a long-running server accumulates) and a history long enough to create and revisit them
+            big = k.choice([140, 300])
+            pool = pool + [[f"10.7.{i // 250}.{i % 250 + 1}", 50000 + (i % 3) * 2] for i in range(big)]
+            n = k.choice([400, 700])
+            nrec = big + 10
         weights = {o: k.choice([0, 1, 2, 4]) for o in
                    ["match_incoming", "save", "patch", "attr_set", "attr_get", "delete_attr", "match_attr", "match_ip", "match_uuid",
                     "held_patch", "held_attr", "len_all"]}
-        weights["match_incoming"] = max(weights["match_incoming"], 2)
+        weights["match_incoming"] = max(weights["match_incoming"], 2 if nrec == 6 else 6)
         names = list(weights)
         ops = []
         for _ in range(n):
             o = w.choices(names, [weights[x] for x in names])[0]
             op = {"op": o, "client": s.randrange(nclients)}
             if o == "match_incoming":
-                op["addr"] = w.choice(ADDRS[:naddr])
+                op["addr"] = w.choice(pool)
                 op["auto"] = w.random() < 0.6
                 op["patch"] = rnd_patch(w) if w.random() < 0.5 else None  # None = use the default argument
             elif o in ("save", "patch", "held_patch"):
-                op["rec"] = w.randrange(6)
+                op["rec"] = w.randrange(nrec)
                 op["patch"] = rnd_patch(w)
             elif o in ("attr_set", "held_attr"):
-                op["rec"] = w.randrange(6)
+                op["rec"] = w.randrange(nrec)
                 op["key"] = w.choice(DYN)
                 op["value"] = w.choice([1, "y", True, 0, False, "", 2.5])
             elif o in ("attr_get", "delete_attr"):
-                op["rec"] = w.randrange(6)
+                op["rec"] = w.randrange(nrec)
                 op["key"] = w.choice(DYN)
             elif o == "match_attr":
                 op["field"] = w.choice(["dmr_id", "callsign", "serial", "address_in", "address_out"])
-                op["rec"] = w.randrange(6)  # value taken from this model record (hit) ...
+                op["rec"] = w.randrange(nrec)  # value taken from this model record (hit) ...
                 op["miss"] = w.random() < 0.2  # ... or a value nobody has
             elif o == "match_ip":
                 op["ip"] = w.choice(["10.0.0.1", "10.0.0.2", "10.0.0.9", "110.0.0.1", "0.0.0.1", "", "fe80::1", "1"])
             elif o == "match_uuid":
-                op["rec"] = w.randrange(6)
+                op["rec"] = w.randrange(nrec)
                 op["unknown"] = w.random() < 0.1
             ops.append(op)
         case = {"knobs": {"clients": nclients, "uuid_seed": k.getrandbits(32)}, "ops": ops}
